@@ -107,6 +107,8 @@ pub struct Script {
     pub ops_call: Vec<AllocOp>,
     pub call_ops_from: u64,
     pub call_ops_until: u64,
+    /// If set, only these (scheduler) threads perform the call-site operations.
+    pub call_ops_tids: Option<Vec<u64>>,
     pub ops_drop_out: Vec<AllocOp>,
     pub ops_drop_in: Vec<AllocOp>,
     pub panic_where: String,
@@ -139,6 +141,7 @@ impl Script {
             ops_call: parse_ops(a.get("call")),
             call_ops_from: a["call_from"].as_u64().unwrap_or(0),
             call_ops_until: a["call_until"].as_u64().unwrap_or(u64::MAX),
+            call_ops_tids: a["call_tids"].as_array().map(|v| v.iter().filter_map(|x| x.as_u64()).collect()),
             ops_drop_out: parse_ops(a.get("drop_out")),
             ops_drop_in: parse_ops(a.get("drop_in")),
             panic_where: p["where"].as_str().unwrap_or("").to_owned(),
@@ -355,7 +358,11 @@ fn call<O: OutShape>(in_id: u64) -> O {
     untracked(|| event(Ev::new("call").u("in", in_id as u128).u("out", out_id as u128)));
     // Allocator activity may be limited to a window of a thread's calls
     // (warm-up allocations, late allocations).
-    if nth >= s.call_ops_from && nth < s.call_ops_until {
+    let tid = sched::current_tid().unwrap_or(0) as u64;
+    if nth >= s.call_ops_from
+        && nth < s.call_ops_until
+        && s.call_ops_tids.as_ref().map_or(true, |t| t.contains(&tid))
+    {
         do_ops("call", &s.ops_call);
     }
     untracked(|| {
